@@ -85,6 +85,12 @@ func planC01(w *World, spec RunSpec) {
 	w.Scenario = GenOS(w, OSProfile{MaxSets: 3, Delegation: true, Preexisting: 5, Intruder: "boundary", LateCreate: true, PhaseObjectDrift: s.Bool("phase-object-drift")})
 	w.StartProcesses()
 	w.Disturb(w.Cfg.Ndist)
+	if w.Settle(w.Cfg.CalmBudget) && !w.stopNow {
+		// a resync round at quiescence: refusals that still stand afterwards were taken on a caught-up cache
+		if _, ok := w.probePasses(w.Cfg.CalmBudget); ok {
+			w.resynced = true
+		}
+	}
 	w.finish()
 }
 
